@@ -643,6 +643,13 @@ func (it *Interp) executable(fn *ssa.Function) bool {
 			return true
 		}
 	}
+	if file := it.prog.Fset.Position(fn.Pos()).Filename; file != "" {
+		for _, suf := range execThroughFiles {
+			if strings.HasSuffix(file, suf) {
+				return true
+			}
+		}
+	}
 	for _, pre := range execThroughPkgs {
 		if path == pre {
 			return true
